@@ -17,6 +17,7 @@ pub mod verif_spec {
     pub use crate::verif_spec_srp_theorems::*;
     pub use crate::verif_spec_integrity::*;
     pub use crate::verif_spec_pin::*;
+    pub use crate::verif_spec_matrix::*;
 
     pub open spec fn be16(x: u16) -> Seq<u8> { seq![(x / 256) as u8, (x % 256) as u8] }
     pub open spec fn le16(x: u16) -> Seq<u8> { seq![(x % 256) as u8, (x / 256) as u8] }
